@@ -650,6 +650,10 @@ func (ipv6cp *IPV6CPStateMachine) timeout() {
 			ipv6cp.sendTerminateRequest("Timeout")
 		case IPV6CPStateReqSent, IPV6CPStateAckRcvd, IPV6CPStateAckSent:
 			ipv6cp.sendConfigureRequest()
+			if ipv6cp.state == IPV6CPStateAckRcvd {
+				// the new request is unacknowledged: back to Req-Sent (RFC 1661: TO+ in Ack-Rcvd -> scr/Req-Sent)
+				ipv6cp.setState(IPV6CPStateReqSent)
+			}
 		}
 	} else {
 		switch ipv6cp.state {
